@@ -15,7 +15,7 @@ PROP = "C13"; LEVEL = "exploration"
 def gen_(chk, mpmath, rng):
     mp = mpmath.mp
     g = gen.G(rng.randint(0, 10 ** 9))
-    for i in range(chk.pick(700, 20000)):
+    for i in range(chk.pick(1200, 30000)):
         p = rng.choice([10, 24, 53, 53, 100, 200, rng.randint(10, 600)])
         mp.prec = p
         c = rng.random()
@@ -27,9 +27,10 @@ def gen_(chk, mpmath, rng):
                 yield ex.eq(got, want), {"key": "exact/" + f, "x": x, "p": p, "what": "%s(%d) is not exactly %d" % (f, x, want)}
             elif c < 0.4:
                 # perfect powers: the root fits in p bits, so it must be returned exactly
-                n = rng.choice([2, 2, 3, 3, 4, 5, 7, 10])
-                rb = rng.randint(1, max(1, min(p, 600 // n)))
-                r = gen.mk(g.mant(rb, p), rng.randint(-40, 40))
+                n = rng.choice([2, 2, 3, 3, 4, 5, 5, 7, 7, 10, 13])
+                hi = max(1, min(p, 600 // n))
+                rb = rng.randint(1, hi) if rng.random() < 0.4 else rng.randint(min(hi, p // n + 1), hi)     # mostly: the power is wider than p bits
+                r = gen.mk(g.mant(rb, p), rng.choice([rng.randint(-40, 40), -rb - rng.randint(0, 40), -rb - rng.randint(0, 40), rng.randint(-3000, 3000)]))
                 mp.prec = 10 * 700
                 X = mp.make_mpf(r) ** n                    # exact: enough precision for the power
                 mp.prec = p
